@@ -225,7 +225,7 @@ func finishCheck(prop, tier string, seed int64, spec PropSpec, results []jobResu
 	for _, jr := range results {
 		for _, q := range jr.Sum.Cross {
 			crossN++
-			for _, sv := range [][]string{{"z3-new", "-in"}, {"cvc5", "--lang", "smt2"}} {
+			for _, sv := range [][]string{{"z3-new", "-in", "-T:70"}, {"cvc5", "--lang", "smt2", "--tlimit=70000"}} {
 				got := smt.RunScript(sv[0], sv[1:], q.Script, 60*time.Second).String()
 				switch {
 				case got == "unknown":
